@@ -43,7 +43,7 @@ func genC04(rng *rand.Rand) c04Case {
 		case x < 9:
 			c.Ops = append(c.Ops, fmt.Sprintf("stale:%d", rng.IntN(live)))
 		default:
-			c.Ops = append(c.Ops, "window:"+[]string{"peer-disconnect", "close-true", "ping-timeout"}[rng.IntN(3)])
+			c.Ops = append(c.Ops, "window:"+[]string{"peer-disconnect", "close-true", "ping-timeout", "transport-error", "parse-error", "close-false"}[rng.IntN(6)]+":"+[]string{"polling", "websocket", "webtransport"}[rng.IntN(3)])
 			live++
 		}
 	}
@@ -149,7 +149,7 @@ func runC04(c c04Case, r *rep.Report) (key, msg string, stats map[string]int64) 
 					var cl *rig.Client
 					done := make(chan struct{})
 					go func() {
-						cl, _ = w.Connect(rig.ClientCfg{Rev: 4, Transport: "websocket", NoAutoPong: true})
+						cl, _ = w.Connect(rig.ClientCfg{Rev: 4, Transport: parts[2], NoAutoPong: true})
 						close(done)
 					}()
 					time.Sleep(time.Microsecond)
@@ -158,12 +158,31 @@ func runC04(c c04Case, r *rep.Report) (key, msg string, stats map[string]int64) 
 					if len(ps) == 1 {
 						stats["gate:handshake_held_after_new_socket"]++
 						sock := ps[0].Args[0].(engine.Socket)
-						<-done
-						switch parts[1] {
+						cause := parts[1]
+						if parts[2] != "websocket" {
+							// polling: net/http flushes the handshake response only when the handler
+							// returns, and it is the handler that is being held; in-memory WebTransport:
+							// the handshake runs on the client's own goroutine.  Either way the client
+							// knows nothing yet: only server-side causes can strike now
+							if cause != "close-true" && cause != "close-false" && cause != "ping-timeout" {
+								cause = "close-true"
+							}
+						} else {
+							<-done
+						}
+						switch cause {
 						case "ping-timeout":
 							time.Sleep(600 * time.Millisecond)
+						case "close-true":
+							go sock.Close(true)
+							time.Sleep(time.Millisecond)
+						case "close-false":
+							go sock.Close(false)
+							time.Sleep(time.Millisecond)
 						default:
-							go fireCause(parts[1], w, cl, sock)
+							if cl != nil && cl.Sid != "" {
+								go fireCause(cause, w, cl, sock)
+							}
 							time.Sleep(time.Millisecond)
 						}
 						rig.Wait()
